@@ -43,7 +43,9 @@ fn fit_with(init: KMeansInit<f64>, l1: bool, runs: usize, p: &P) -> Fingerprint 
     let ds = DatasetBase::from(train(p));
     let mut f = Fingerprint::new();
     if l1 {
-        let m = KMeans::params_with(k, Xoshiro256Plus::seed_from_u64(p.seed), L1Dist)
+        // (the distance is a caller-supplied callback, instrumented for fault injection: the
+        // fault then strikes inside a job on some pool worker)
+        let m = KMeans::params_with(k, Xoshiro256Plus::seed_from_u64(p.seed), crate::fault::FaultyDist(L1Dist))
             .init_method(init)
             .n_runs(runs)
             .max_n_iterations(30)
@@ -51,7 +53,7 @@ fn fit_with(init: KMeansInit<f64>, l1: bool, runs: usize, p: &P) -> Fingerprint 
             .expect("kmeans fit");
         fp_model(&m, p, &mut f);
     } else {
-        let m = KMeans::params_with(k, Xoshiro256Plus::seed_from_u64(p.seed), L2Dist)
+        let m = KMeans::params_with(k, Xoshiro256Plus::seed_from_u64(p.seed), crate::fault::FaultyDist(L2Dist))
             .init_method(init)
             .n_runs(runs)
             .max_n_iterations(30)
@@ -185,8 +187,34 @@ fn few_distinct(init: KMeansInit<f64>, p: &P) -> Fingerprint {
     f
 }
 
+/// hundreds of clusters (vector quantisation / codebook use): cluster counts beyond any
+/// internal threshold at which an implementation might change strategy
+fn many_clusters(default_builder: bool, p: &P) -> Fingerprint {
+    let (n, k) = p.pick((300, 101), (700, 130), (1500, 260));
+    let x = data::blobs(&mut p.rng(7), n, 3, 12, 1.5).0;
+    let ds = DatasetBase::from(x.clone());
+    let mut f = Fingerprint::new();
+    let fitted = if default_builder {
+        KMeans::params(k).max_n_iterations(4).n_runs(1).fit(&ds)
+    } else {
+        KMeans::params_with(k, Xoshiro256Plus::seed_from_u64(p.seed), L2Dist).max_n_iterations(4).n_runs(2).fit(&ds)
+    };
+    match fitted {
+        Ok(m) => {
+            f.arr("centroids", m.centroids());
+            f.arr("cluster_count", m.cluster_count());
+            f.one("inertia", m.inertia());
+            f.arr("predict", &m.predict(&x));
+        }
+        Err(e) => f.err("fit", &e),
+    }
+    f
+}
+
 pub fn register(r: &mut Registry) {
     const K: &str = "linfa-clustering";
+    r.scenario("kmeans_many_clusters_default", K, Kind::Claim, true, |p| many_clusters(true, p));
+    r.scenario("kmeans_many_clusters_seeded", K, Kind::Claim, true, |p| many_clusters(false, p));
     r.scenario("kmeans_few_distinct_pp", K, Kind::Claim, true, |p| few_distinct(KMeansInit::KMeansPlusPlus, p));
     r.scenario("kmeans_few_distinct_random", K, Kind::Claim, true, |p| few_distinct(KMeansInit::Random, p));
     for (iname, l1, runs) in [("random", false, 1), ("random", true, 3), ("pp", false, 1), ("pp", false, 3), ("pp", true, 1), ("pre", false, 1), ("pre", true, 1)] {
